@@ -240,8 +240,48 @@ func runC18(e *Engine, r *Report, tier string) {
 							missing = callName(s)
 						}
 					}
+					// a sub-step inside a loop: its error must end the loop, otherwise the next iteration's result replaces it
+					// and the guard only sees the last one (round-8 seed C18 lost the `break`)
+					overwritten := ""
+					for _, s := range sub {
+						evs := errorValuesOf(s)
+						if len(evs) == 0 {
+							continue
+						}
+						nxt := s.Block().Instrs[len(s.Block().Instrs)-1]
+						if !canReach(nxt, s) {
+							continue // not on a cycle
+						}
+						leaves := false
+						for _, ev := range evs {
+							for _, ref := range *ev.Referrers() {
+								bo, ok := ref.(*ssa.BinOp)
+								if !ok || !(isNilConst(bo.X) || isNilConst(bo.Y)) {
+									continue
+								}
+								for _, r2 := range *bo.Referrers() {
+									iff, ok := r2.(*ssa.If)
+									if !ok {
+										continue
+									}
+									nb := iff.Block().Succs[1]
+									if bo.Op.String() == "!=" {
+										nb = iff.Block().Succs[0]
+									}
+									if len(nb.Instrs) > 0 && !canReach(nb.Instrs[0], s) && nb.Instrs[0] != ssa.Instruction(s) {
+										leaves = true
+									}
+								}
+							}
+						}
+						if !leaves {
+							overwritten = callName(s)
+						}
+					}
 					if len(sub) == 0 {
 						r.Fail("R1b", ks, e.InstrPos(K), "no call uses the cached context before it is written back (anchor unresolved / sub-step runs on the outer context)")
+					} else if overwritten != "" {
+						r.Fail("R1b", ks, e.InstrPos(K), "sub-step call `"+overwritten+"` runs in a loop that is not left when it fails: the next iteration's result replaces the error, the write-back is then guarded by the last sub-step only and the writes of a failed earlier one are committed")
 					} else if missing != "" {
 						r.Fail("R1b", ks, e.InstrPos(K), "the error of sub-step call `"+missing+"` is not part of the condition guarding the write-back")
 					} else {
